@@ -188,7 +188,7 @@ REACH = {
             "sweep_histories", "observer_snapshots", "clock_negative_jump", "address_reused_after_drop",
             "thread_runs", "thread_switches", "thread_line_sweeps", "observer_line_events"],
 }
-FAULTS = ["raise", "alloc_fail", "nonfinite", "clock", "pbar_fail"]
+FAULTS = ["raise", "alloc_fail", "nonfinite", "clock", "pbar_fail", "interrupt"]
 
 
 def reach():
